@@ -310,6 +310,18 @@ var probes = map[string]func() string{
 		r += fmt.Sprint(n, err) + tagged.CanonGo(c)
 		n, err = c.UpdateValuesForPath("n|8", "a", "k|v")
 		r += fmt.Sprint(n, err) + tagged.CanonGo(c)
+		// keys with upper-case letters, hyphens and a multi-byte character: the key-folding registers are the DECODER's, a query
+		// takes the keys of the Map and the names of the path as they are
+		u := mxj.Map{"Doc-A": map[string]interface{}{"Item": []interface{}{map[string]interface{}{"SKU": "x", "É-b": "y"}, map[string]interface{}{"SKU": "z"}}, "item": "lower"}}
+		for _, p := range []string{"Doc-A.Item.SKU", "Doc-A.Item[1].SKU", "Doc-A.item", "doc-a.item", "Doc-A.Item.É-b", "Doc_A.Item.SKU", "*.Item.SKU"} {
+			v, err := u.ValuesForPath(p)
+			ex, _ := u.Exists(p)
+			r += digest(v, err) + fmt.Sprint(ex) + ";"
+		}
+		v, err := u.ValuesForKey("SKU")
+		ps := u.PathsForKey("SKU")
+		sort.Strings(ps)
+		r += digest(v, err) + fmt.Sprint(ps, u.PathForKeyShortest("item")) + ";"
 		return r
 	},
 	"struct": func() string {
@@ -525,7 +537,7 @@ type mxjLine struct {
 	Restore []optCall `json:"restore"`
 }
 
-const mxjProbeDoc = `<D-a x-Y="1" B=" &amp;">` + "\n" + `<e-f> 7 </e-f><e-f>&lt;v</e-f><g/><s>  </s><h k="q">true</h>` + "\n" + `</D-a>`
+const mxjProbeDoc = `<D-a x-Y="1" B=" &amp;">` + "\n" + `<e-f> 7 </e-f><e-f>&lt;v</e-f><g/><s>  </s><n>` + "\u00a0v\u00a0" + `</n><h k="q">true</h>` + "\n" + `</D-a>`
 const mxjXmppDoc = `<stream:stream to="x" A-b="&amp;"><a>1</a><B-c k="q"> 2 </B-c></stream:stream>`
 const mxjProbeSeqDoc = `<p:A z-z="1&amp;"><!--c--><B-c> v </B-c><d>&lt;7</d><_e>1</_e><s>  </s></p:A>`
 
@@ -561,6 +573,9 @@ func mxjOp(st mxjStep) (name, got, want string) {
 		if st.Arg == "cast" {
 			name = "NewMapXml(probe, true)"
 			m, err = mxj.NewMapXml([]byte(mxjProbeDoc), true)
+		} else if st.Arg == "simple" {
+			name = "NewMapXml(<T-i> hi </T-i>)"
+			m, err = mxj.NewMapXml([]byte(`<T-i> hi </T-i>`))
 		} else {
 			name = "NewMapXml(probe)"
 			m, err = mxj.NewMapXml([]byte(mxjProbeDoc))
